@@ -14,6 +14,13 @@
 //!        now), decoded, one field changed (`n` none, `v` version+1, `k` author -> next scenario
 //!        key, `t` time+1, `l` logical+1, `b` body + "x"), re-encoded with the original
 //!        signature and handed to a subscription -> what it yields
+//!   `seq <s|b> <signer> <v1> <pk1> <t1> <l1> <b1> <v2> <pk2> <t2> <l2> <b2> <sigmut> ...` (12 tokens per message)
+//!        a SEQUENCE of `forge`-style messages sent in order to ONE subscription; `s`: drained
+//!        after every message, one group of yields per message (`-` or yields joined by `,`,
+//!        groups separated by blanks); `b`: all sent first, then drained once (one group)
+//!   `rseq <signer> <t0> <now> <b> <field> <place>`
+//!        as `remix`, but the really published original O and its remixed copy R go to the same
+//!        subscription: place `a` = O R, `d` = O O R, `b` = R O, `m` = O R O R; drained once
 //! Yields are printed as `Y<key index>:<timestamp>:<body number>`; nothing yielded = `-`.
 use std::pin::Pin;
 use std::task::{Context, Poll};
@@ -175,6 +182,68 @@ pub fn case(env: &Env, payload: &str) -> String {
             let _ = s.inject.as_ref().unwrap().send(remixed);
             show(drain(&mut s.subscription))
         }
+        "seq" => {
+            let step = toks[1] == "s";
+            let mut s = open(env, 0, 64);
+            let mut groups = Vec::new();
+            for m in toks[2..].chunks(12) {
+                let n = |i: usize| m[i].parse::<u64>().expect("number");
+                let signer = n(0);
+                let f1 = Fields { ver: n(1), pk: n(2), t: n(3), l: n(4), body: unhex(m[5]) };
+                let f2 = Fields { ver: n(6), pk: n(7), t: n(8), l: n(9), body: unhex(m[10]) };
+                let mut sig = sign_fields(signer, &f1);
+                if n(11) == 1 {
+                    let mut b = sig.to_bytes();
+                    b[(f1.t % 64) as usize] ^= 1 << (f1.l % 8);
+                    sig = Signature::from_bytes(&b);
+                }
+                let _ = s.inject.as_ref().unwrap().send(wire(&f2, sig));
+                if step {
+                    groups.push(group(drain(&mut s.subscription)));
+                }
+            }
+            if !step {
+                groups.push(group(drain(&mut s.subscription)));
+            }
+            groups.join(" ")
+        }
+        "rseq" => {
+            let signer = num(1);
+            MockClock::set_system_time(Duration::from_micros(num(2)));
+            let mut s = open(env, signer, 16);
+            let publisher = s.publisher.take().unwrap();
+            MockClock::set_system_time(Duration::from_micros(num(3)));
+            env.rt.block_on(publisher.publish(unhex(toks[4]))).expect("publish");
+            let bytes = s.published.try_recv().expect("publish handed bytes to the overlay");
+            let (mut ver, mut pk, sig, t, l, mut b): (u64, VerifyingKey, Signature, Timestamp, LamportTimestamp, String) =
+                decode_cbor(&bytes[..]).expect("published bytes decode");
+            let (mut t, mut l) = (u64::from(t), l.to_string().parse::<u64>().unwrap());
+            match toks[5] {
+                "n" => {}
+                "v" => ver = ver.wrapping_add(1),
+                "k" => pk = crate::common::key((signer + 1) % 6).verifying_key(),
+                "t" => t = t.wrapping_add(1),
+                "l" => l = l.wrapping_add(1),
+                "b" => b.push('x'),
+                _ => return "BADCASE".into(),
+            }
+            let remixed = p2panda_core::cbor::encode_cbor(&(ver, pk, sig, Timestamp::new(t), LamportTimestamp::new(l), &b)).unwrap();
+            let order: &[bool] = match toks[6] {
+                "a" => &[true, false],
+                "d" => &[true, true, false],
+                "b" => &[false, true],
+                "m" => &[true, false, true, false],
+                _ => return "BADCASE".into(),
+            };
+            for original in order {
+                let _ = s.inject.as_ref().unwrap().send(if *original { bytes.clone() } else { remixed.clone() });
+            }
+            group(drain(&mut s.subscription))
+        }
         _ => "BADCASE".to_string(),
     }
+}
+
+fn group(y: Vec<String>) -> String {
+    if y.is_empty() { "-".to_string() } else { y.join(",") }
 }
